@@ -14,9 +14,9 @@ V = lambda x: ("var", x)
 B = lambda op, l, r: ("bin", op, l, r)
 
 INT_NODES = ["add", "sub", "mul", "call1", "call2", "call3", "call4", "orx", "pick", "fact", "neg", "mlit"]
-BOOL_NODES = ["lt", "eq", "and", "or", "not"]
+BOOL_NODES = ["lt", "eq", "and", "or", "not", "andF", "orT"]
 ARITY = {"add": ("ii"), "sub": ("ii"), "mul": ("ii"), "call1": ("i"), "call2": ("ii"), "call3": ("iii"), "call4": ("iiii"), "orx": ("oi"),
-         "pick": ("iii"), "mlit": ("iii"), "fact": ("i"), "neg": ("i"), "lt": ("ii"), "eq": ("ii"), "and": ("bb"), "or": ("bb"), "not": ("b")}
+         "pick": ("iii"), "mlit": ("iii"), "fact": ("i"), "neg": ("i"), "lt": ("ii"), "eq": ("ii"), "and": ("bb"), "or": ("bb"), "not": ("b"), "andF": ("b"), "orT": ("b")}
 
 PRELUDE = [
     ("assign", "in0", ("in", 0)), ("assign", "in1", ("in", 1)), ("assign", "in2", ("in", 2)),
@@ -29,6 +29,10 @@ PRELUDE = [
     ("def", "lg", [("tag", "int"), ("v", "int")], "int", [("print", V("tag")), ("return", V("v"))]),
     ("def", "lo", [("tag", "int"), ("sel", "int"), ("v", "int")], "int?", [
         ("print", V("tag")), ("if", [(B("==", V("sel"), I(1)), [("return", ("nil",))])], None), ("return", V("v"))]),
+    ("assign", "zb", I(0)),
+    ("def", "zr0", [], "bool", [("print", I(3000)), ("modify", "zb", B("-", V("zb"), I(1))), ("if", [(B("<", V("zb"), I(-2)), [("return", ("bool", False))])], None),
+                                ("return", B("&&", B(">", V("zb"), I(0)), ("selfcall", [])))]),
+    ("def", "zr", [("n", "int")], "bool", [("modify", "zb", B("%", V("n"), I(3))), ("return", ("call", "zr0", []))]),
     ("def", "f0", [], "int", [("print", I(1000)), ("return", I(7))]),
     ("def", "f1", [("a", "int")], "int", [("print", I(1001)), ("return", B("-", I(0), V("a")))]),
     ("def", "f2", [("a", "int"), ("b", "int")], "int", [("print", I(1002)), ("return", B("-", V("a"), V("b")))]),
@@ -61,6 +65,10 @@ class Builder:
             return ("mcall", V("ob"), "lg", [I(t), inp])        # a method call as operand (receiver, then arguments)
         if kind == "Y":
             return ("mcall", V("ob"), "lb", [I(t), inp])
+        if kind == "F":
+            return ("field", V("ob"), "z")                       # a field read used directly as operand: later siblings (method calls) update the field
+        if kind == "Z":
+            return ("call", "zr", [inp])                         # a function whose `&&` has a bare `self()` as right operand
         if kind == "i":
             return ("call", "lg", [I(t), inp])
         if kind == "o":
@@ -83,6 +91,10 @@ class Builder:
             return B("&&", kids[0], kids[1])
         if k == "or":
             return B("||", kids[0], kids[1])
+        if k == "andF":
+            return B("&&", kids[0], ("bool", False))        # the literal decides the value; the left operand still runs, once
+        if k == "orT":
+            return B("||", kids[0], ("bool", True))
         if k == "not":
             return ("not", kids[0])
         if k == "neg":
@@ -103,7 +115,7 @@ class Builder:
 
 def shapes(kind, depth, nodes_i=INT_NODES, nodes_b=BOOL_NODES):
     """all shapes of value kind `kind` ('i', 'b', 'o') with nesting depth <= depth"""
-    leaves = {"i": ["i", "I", "M"], "b": ["b", "X", "Y"], "o": ["o"]}[kind]
+    leaves = {"i": ["i", "I", "M", "F"], "b": ["b", "X", "Y", "Z"], "o": ["o"]}[kind]
     if depth == 0 or kind == "o":
         return list(leaves)
     out = list(leaves)
